@@ -8,7 +8,8 @@ package serveruser
 //@ // discovery attempt invalidates any earlier currency check of the generation).
 //@ func tryState(state *state, encryptedMeta []byte, source Source, hintMandatory bool) (r discoveryResult)
 //@   trusted candidate-order proof (cache independence, hint preference) is future work; see DESIGN.md C07
-//@   modifies ghost(recheck)
+//@   modifies ghost(recheck), ghost(added)
+//@   modifies state.cache.stats.* when state != nil && state.cache != nil && state.cache.stats != nil
 //@   ensures ghost(recheck) == 0
 //@
 //@ // Reload safety (C07): the publisher may be replaced by SetUsers at any moment
@@ -20,8 +21,21 @@ package serveruser
 //@   property C07
 //@   mode int
 //@   noframe
+//@   preserves PacketUnderlay.*, StreamUnderlay.*
+//@   requires afterAttempt == nil
 //@   volatile Pointer_sync_atomic.Pointer[github.com_enfein_mieru_v3_pkg_protocol_serveruser.state].v, .v
 //@   ensures err == nil ==> result.block != nil && result.generation != nil
 //@   ensures err == nil && requireCurrent ==> ghost(recheck) == 1 && mathint(result.generation) == ghost(lastload)
 //@   loop 1:
 //@     invariant true
+//@
+//@ func (r *Registry) Discover(encryptedMetadata []byte, source Source, requireCurrent bool) (b cipher.BlockCipher, meta []byte, auth Authentication, err error)
+//@   property C05 C07
+//@   mode int
+//@   noframe
+//@   preserves PacketUnderlay.*, StreamUnderlay.*
+//@   requires r != nil
+//@   ensures err == nil ==> b != nil
+//@
+//@ func SourceFromAddr(addr net.Addr) (s Source)
+//@   trusted address parsing helper (array conversions outside the subset); the result is left unconstrained
